@@ -162,6 +162,29 @@ theorem blade_cocycle (a b c : Nat) :
 
 end Ring
 
+/-- `canonical_reordering_sign` as a ring element is the cast of the integer sign -/
+theorem reorderSignR_eq_cast {R : Type} [CommRing R] (a b : Nat) :
+    (reorderSignR a b : R) = ((reorderSign a b : Int) : R) := by
+  unfold reorderSignR reorderSign
+  split <;> simp
+
+theorem reorderSignR_int (a b : Nat) : (reorderSignR a b : Int) = reorderSign a b := rfl
+
+theorem reorderSignR_mul_self {R : Type} [CommRing R] (a b : Nat) :
+    (reorderSignR a b : R) * reorderSignR a b = 1 := by
+  unfold reorderSignR
+  split <;> simp
+
+/-- `blade_cocycle` in the shape `_generic_product` multiplies (`weight * sign`), over any
+    commutative ring -/
+theorem blade_cocycle_R {R : Type} [CommRing R] (g : Nat → R) (a b c : Nat) :
+    (wGeometric g a b * reorderSignR a b) * (wGeometric g (a ^^^ b) c * reorderSignR (a ^^^ b) c)
+      = (wGeometric g b c * reorderSignR b c)
+        * (wGeometric g a (b ^^^ c) * reorderSignR a (b ^^^ c)) := by
+  simp only [reorderSignR_eq_cast]
+  rw [mul_mul_mul_comm, wGeometric_cocycle, ← Int.cast_mul, sign_cocycle, Int.cast_mul,
+    mul_mul_mul_comm]
+
 /-- integer instance of `blade_cocycle`, in the shape `_generic_product` multiplies
     (`weight * sign`) -/
 theorem blade_cocycle_int (g : Nat → Int) (a b c : Nat) :
@@ -226,44 +249,5 @@ theorem wScalar_eq_grade_part (a b : Nat) :
   · simp [h]
 
 end GradeParts
-
-end PV.GA
-
-namespace PV.GA
-
-/-! ## products of single blades at multivector level -/
-
-/-- `_generic_product` of two one-term multivectors `{a: x}` and `{b: y}` -/
-theorem genericProduct_blades (w : Nat → Nat → Int) (a b : Nat) (x y : Int) :
-    genericProduct w [(a, x)] [(b, y)] =
-      if w a b = 0 ∨ w a b * reorderSign a b * x * y = 0 then []
-      else [(a ^^^ b, w a b * reorderSign a b * x * y)] := by
-  by_cases h1 : w a b = 0
-  · simp [genericProduct, h1]
-  · by_cases h2 : w a b * reorderSign a b * x * y = 0
-    · simp [genericProduct, h1, h2, dictAccum, dictGet, dictDel]
-    · simp [genericProduct, h1, h2, dictAccum, dictGet, dictSet]
-
-/-- (e) `e_i * e_i = g i` as computed by `MultiVector.__mul__` (a zero metric entry gives the
-    empty dict) -/
-theorem basis_square_mv (g : Nat → Int) (i : Nat) :
-    mvMul g [(2 ^ i, 1)] [(2 ^ i, 1)] = if g i = 0 then [] else [(0, g i)] := by
-  unfold mvMul
-  rw [genericProduct_blades, wGeometric_basis_self, (basis_square_sign i).1, Nat.xor_self]
-  simp
-
-/-- (e) `e_i * e_j = -(e_j * e_i)` for `i ≠ j` as computed by `MultiVector.__mul__`, and the
-    product is the single blade `e_i ∧ e_j` with coefficient `±1` -/
-theorem basis_anticommute_mv (g : Nat → Int) {i j : Nat} (h : i ≠ j) :
-    mvMul g [(2 ^ i, 1)] [(2 ^ j, 1)] = [(2 ^ i ^^^ 2 ^ j, reorderSign (2 ^ i) (2 ^ j))]
-    ∧ mvMul g [(2 ^ i, 1)] [(2 ^ j, 1)] = mvNeg (mvMul g [(2 ^ j, 1)] [(2 ^ i, 1)]) := by
-  unfold mvMul
-  rw [genericProduct_blades, genericProduct_blades, wGeometric_basis_ne g h,
-    wGeometric_basis_ne g (Ne.symm h), basis_anticommute_sign h]
-  have hs : reorderSign (2 ^ j) (2 ^ i) ≠ 0 := by
-    intro h0
-    have := reorderSign_mul_self (2 ^ j) (2 ^ i)
-    rw [h0] at this; simp at this
-  simp [hs, mvNeg, Nat.xor_comm]
 
 end PV.GA
